@@ -688,4 +688,85 @@ def check_C14(cx):
                             "conversion helpers over fragmenting readers; distinct_nontrivial = cases executed on the real code")
 
 
-CHECKS = {"C14": check_C14, "C17": check_C17, "C04": check_C04, "C08": check_C08, "C13": check_C13, "C19": check_C19, "C03": check_C03, "C07": check_C07}
+# ---------------------------------------------------------------- Idle / C20
+def idle_step(label):
+    name, args = parse_call(label)
+    m = {"Active": "active", "IO": "io", "Tick": "tick", "Inactive": "inactive", "Fire": "fire", "CbCheck": "check",
+         "CbDeliver": "deliver", "CbRearm": "rearm"}
+    st = {"op": m[name]}
+    if args:
+        st["i"] = args[0]
+    return st
+
+
+def check_C20(cx):
+    cx.module = "idle"
+    cx.build()
+    quick = cx.tier == "quick"
+    inv = ["C20_NotEarly", "C20_Persist", "C20_AfterInactive", "C20_NoLateArm"]
+    consts = {"D": 3, "Horizon": 10 if quick else 13, "MaxIO": 3 if quick else 4, "Urgent": False}
+    generic_mc(cx, "MCidle", "Idle", consts, inv, what="C20 invariants, idle period 3 ticks, horizon %d, IO at every tick offset, inactive at every point of a running callback" % consts["Horizon"])
+    gconsts = {"D": 3, "Horizon": 7, "MaxIO": 2, "Urgent": True}
+    init, adj = generic_graph(cx, "Gidle", "Idle", gconsts)
+    paths, total, planned = edge_cover(init, adj, cx.rnd, max_paths=160 if quick else 1500, max_len=40)
+    tick_ms = 25
+    cases = []
+    for i, p in enumerate(paths):
+        steps = [idle_step(l) for _, l, _ in p]
+        cases.append({"id": "g%d" % i, "kind": ("read", "write")[i % 2], "tick_ms": tick_ms, "d": 3, "steps": steps, "panic": i % 5 == 4, "seed": 1})
+    try:
+        rs = run_driver(cx.driver, "idle", cases, cx.wd, tag="g", shards=16, timeout=1200)
+    except Inconclusive as e:
+        if "panic:" in str(e) and ("onReadTimeout" in str(e) or "onWriteTimeout" in str(e)):
+            f = {"prop": "C20", "key": "timer-goroutine-crash", "msg": "the driver process died from a panic in a timer callback: " + str(e)[:300], "step": 0}
+            cx.fails.append((f, {"id": "crash", "steps": []}, {"sched": []}))
+            return finish(cx)
+        raise
+    cx.absorb(rs, cases)
+    good = [r for r in rs if not r.get("timing")]
+    cx.extra_cov["timing_inconclusive_replays"] = len(rs) - len(good)
+    if len(good) < 0.6 * len(rs):
+        raise Inconclusive("the machine is too loaded for timed replays: %d of %d replays broke the timing assumption" % (len(rs) - len(good), len(rs)))
+    v = validate(cx, "Tidle", "TraceIdle", gconsts, good, inv, {"op": "reset"})
+    # the outcome of a check section depends on the real clock: a rejection exactly there is a timing
+    # disagreement between the logical and the real clock, not a protocol divergence
+    byid = {r["id"]: r for r in good}
+    clock = [(rid, st) for rid, st, _ in v["rejected"] if 0 < st <= len(byid[rid]["events"]) and byid[rid]["events"][st - 1]["op"] == "check"]
+    if clock:
+        cx.extra_cov["timing_inconclusive_replays"] += len(clock)
+        cx.nonconforming = [n for n in cx.nonconforming if (n["case"], n["step"]) not in clock]
+        v["rejected"] = [x for x in v["rejected"] if (x[0], x[1]) not in clock]
+    cx.edges_total += total
+    cx.edges_walked += sum(len(r["events"]) for r in good) if not v["rejected"] else 0
+    log("  idle graph: %d edges, %d paths, %d timing-inconclusive, %d rejected, t=%.1fs" % (total, len(paths), len(rs) - len(good), len(v["rejected"]), time.time() - cx.t0))
+    # ungated timing scenarios: reads/writes at random offsets, bursts, silence, inactive, real timers
+    cases = []
+    for i in range(48 if quick else 400):
+        cases.append({"id": "t%d" % i, "kind": ("read", "write")[i % 2], "tick_ms": 10 + (i % 3) * 7, "d": 3 + (i % 2), "free": True, "random": 30,
+                      "panic": i % 7 == 6, "seed": cx.rnd.randrange(1, 1 << 30)})
+    # persistence: silence for six periods must produce at least two events
+    for i in range(8):
+        cases.append({"id": "persist%d" % i, "kind": ("read", "write")[i % 2], "tick_ms": 20, "d": 3, "free": True,
+                      "steps": [{"op": "active"}] + [{"op": "tick"}] * 18, "panic": i % 4 == 3, "seed": 1})
+    try:
+        rs = run_driver(cx.driver, "idle", cases, cx.wd, tag="t", shards=16, timeout=1200)
+    except Inconclusive as e:
+        if "panic:" in str(e) and ("onReadTimeout" in str(e) or "onWriteTimeout" in str(e)):
+            f = {"prop": "C20", "key": "timer-goroutine-crash", "msg": "the driver process died from a panic in a timer callback: " + str(e)[:300], "step": 0}
+            cx.fails.append((f, {"id": "crash", "steps": []}, {"sched": []}))
+            return finish(cx)
+        raise
+    cx.absorb(rs, cases)
+    for r, c in zip(rs, cases):
+        if c["id"].startswith("persist") and r["delivered"] < 2:
+            f = {"prop": "C20", "key": "not-redelivered", "msg": "%s-idle handler, idle period 60ms: %d idle events in 360ms of silence" % (c["kind"], r["delivered"]), "step": 0}
+            cx.fails.append((f, c, r))
+    if good:
+        cx.samples.append({"script": [e["op"] + (str(e["i"]) if e["op"] in ("fire", "check", "deliver", "rearm") else "") for e in good[0]["events"]]})
+    cx.assume.append("timers never fire early; a tick of the logical clock is a real sleep, replays whose real-time check disagrees with the logical clock are dropped (counted)")
+    cx.assume.append("event handlers return within one idle period (overlapping callbacks beyond two are not modelled)")
+    return finish(cx, rule="cases = scripts of activate / IO / tick / fire / callback-section / inactive steps: TLC state-graph edge covers executed with real timers and "
+                            "hook-gated callback sections, and ungated random timing scenarios; distinct_nontrivial = Idle.tla steps executed and validated")
+
+
+CHECKS = {"C20": check_C20, "C14": check_C14, "C17": check_C17, "C04": check_C04, "C08": check_C08, "C13": check_C13, "C19": check_C19, "C03": check_C03, "C07": check_C07}
